@@ -292,4 +292,23 @@ pub fn run(r: &mut Runner) {
             }
         });
     }
+    {
+        // generic stream of (y, x) pairs for atan2 over the whole stated range, exponent offset -6..6 (every quadrant)
+        let n: u64 = if quick { 20_000 } else { 2_000_000 };
+        r.notes.push(format!("generic stream for atan2: {} pairs of a fixed Weyl sequence over exponents -30..29, exponent offset -6..6, all sign combinations", n));
+        r.par("generic stream: atan2", (n / 1024) as usize + 1, n, |c, l| {
+            for i in (c as u64 * 1024)..((c as u64 + 1) * 1024).min(n) {
+                let a = match tfref::alpha::generic_dd(i, 1701, -30 + 6, 29 - 6) {
+                    Some(a) => a,
+                    None => continue,
+                };
+                let ea = crate::grid::exp_of(a[0]);
+                let d = (i % 13) as i32 - 6;
+                if let Some(b) = tfref::alpha::generic_dd(i, 1702 + (i % 5), ea + d, ea + d) {
+                    let v = judge_atan2(a, b, Some(l));
+                    rec.record(l, (12u64 << 55) + i, v);
+                }
+            }
+        });
+    }
 }
